@@ -318,6 +318,10 @@ func NewRun(prop string, seed int64, tier string) (*Trace, *Gen) {
 		k.StartWrk, k.StartBeacon = uint64(k.ManyRegs)+1+gap, uint64(k.ManyRegs)+1+gap
 		k.BigReg = nil
 	}
+	if prop == "C16" && g.pct(3) {
+		k.BadGenesisParams = pick(r, []string{"ent:denom", "ent:min-accepts", "ent:signer", "ent:no-signers", "wrk:denom", "wrk:fee", "wrk:limit", "bcn:denom", "bcn:fee", "bcn:limit", "str:above-one", "str:negative"})
+		t.Flags = append(t.Flags, "bad-genesis-params")
+	}
 	if prop == "C06" && g.pct(25) {
 		k.RefMinGas = "0.000001" + Native
 	}
